@@ -21,6 +21,7 @@ type Program struct {
 	Harness  *ssa.Package // package containing the harness entry points
 	RepoRoot string
 	Stubs    map[string]string // function full name -> harness function replacing it
+	RealFmt  bool              // interpret the real fmt code instead of the error-construction model
 	LoadTime time.Duration
 	SSATime  time.Duration
 
